@@ -342,6 +342,35 @@ def sec_compositions(chk):
         _all_zero(chk, "StandardHamiltonian (no iteration controller): metric == likelihood metric + identity",
                   [ma[k] - ta_[k] / as_[k] - ta_[k] for k in range(N)] + [mb[k] - 2 * tb_[k] for k in range(N)])
         chk.under_contract(StandardHamiltonian.apply)
+        # ---- a Gaussian likelihood acting directly on the parameters: the likelihood metric is the inverse covariance *operator itself*, and the
+        # Hamiltonian adds the identity to it through the operator algebra (SumOperator / DiagonalOperator._add / SamplingEnabler); the inverse
+        # covariance is given in every flavour a user can write it
+        var = [sp.Rational(3, 2), sp.Rational(1, 4)][:N] + [sp.Integer(2)] * max(0, N - 2)
+        varf = ift.makeField(dt, np.array([float(v) for v in var]))
+        flavours = [("makeOp(1/var)", ift.makeOp(1. / varf, sampling_dtype=float)), ("makeOp(var).inverse", ift.makeOp(varf, sampling_dtype=float).inverse),
+                    ("makeOp(var).inverse.adjoint", ift.makeOp(varf, sampling_dtype=float).inverse.adjoint),
+                    ("ScalingOperator(4).inverse", ift.ScalingOperator(dt, 4., float).inverse)]
+        for fname, icov in flavours:
+            w = [sp.Rational(1, 4)] * N if fname.startswith("Scaling") else [1 / v for v in var]
+            dnum = np.array([0.5, -1.25, 2., 0.75][:N])
+            Gd = ift.GaussianEnergy(data=ift.makeField(dt, dnum), inverse_covariance=icov)
+            for hname, mk in (("StandardHamiltonian(lh, ic_samp)", lambda g: StandardHamiltonian(g, ic_samp="IC", prior_sampling_dtype=float)),
+                              ("StandardHamiltonian(lh)", lambda g: StandardHamiltonian(g, prior_sampling_dtype=float)),
+                              ("lh + GaussianEnergy(domain)", lambda g: g + ift.GaussianEnergy(domain=dt, sampling_dtype=float))):
+                xs, f, lin = _lin(ift, dt, real=True)
+                ts, t = _tfield(ift, dt)
+                try:
+                    res = mk(Gd)(lin)
+                    mt = exprs(res.metric(t).asnumpy())
+                except Exception as e:  # noqa: BLE001
+                    chk.obligation(f"direct Gaussian likelihood, inverse covariance {fname}: {hname}: the Hamiltonian is built and linearised", "refuted", backend="native",
+                                   detail=f"{type(e).__name__}: {e}"[:300])
+                    continue
+                _all_zero(chk, f"direct Gaussian likelihood, inverse covariance {fname}: {hname}: metric == Fisher information (inverse covariance) + identity",
+                          [mt[i] - (w[i] + 1) * ts[i] for i in range(N)])
+                V = exprs(res.val.asnumpy())[0]
+                nlp = sum(w[i] * (xs[i] - sp.nsimplify(float(dnum[i]), rational=True)) ** 2 for i in range(N)) / 2 + sum(x * x for x in xs) / 2
+                _all_zero(chk, f"direct Gaussian likelihood, inverse covariance {fname}: {hname}: value == -log pdf + prior energy", [sp.diff(V - nlp, x) for x in xs])
 
 
 def sec_fisher_lemma(chk):
